@@ -116,9 +116,15 @@ func (c16Engine) Gen(t *rapid.T, tier string) any {
 						fs = []simrt.FilterSpec{{}}
 					}
 				}
-				ops = append(ops, c16Op{Op: simrt.Op{Kind: "send", Msg: &simrt.Msg{T: "REQ", Sub: fmt.Sprintf("r%d", i), Filters: fs}}})
+				if rapid.IntRange(0, 9).Draw(t, "badid") == 0 {
+					// a filter no stored event can match, spelled with an id that is
+					// not hex (validation is the relay's job): the answer is a bare EOSE
+					// whichever way the store gets there, and the session goes on
+					fs = []simrt.FilterSpec{{IDs: []string{"not-a-hex-id"}}}
+				}
+				ops = append(ops, c16Op{Op: simrt.Op{Kind: "send", Msg: &simrt.Msg{T: "REQ", Sub: c16Sub(t, "r", i), Filters: fs}}})
 			case k == 8:
-				ops = append(ops, c16Op{Op: simrt.Op{Kind: "send", Msg: &simrt.Msg{T: "COUNT", Sub: fmt.Sprintf("c%d", i), Filters: []simrt.FilterSpec{{}}}}})
+				ops = append(ops, c16Op{Op: simrt.Op{Kind: "send", Msg: &simrt.Msg{T: "COUNT", Sub: c16Sub(t, "c", i), Filters: []simrt.FilterSpec{{}}}}})
 			case k == 9:
 				ops = append(ops, c16Op{Op: simrt.Op{Kind: "send", Msg: &simrt.Msg{T: "CLOSE", Sub: fmt.Sprintf("r%d", i)}}})
 			case k == 10:
@@ -382,4 +388,16 @@ func (c16Engine) Exec(t *testing.T, cc any) *simrt.Result {
 			sim.Advance(4 * time.Second)
 		}
 	})
+}
+
+// c16Sub draws a subscription id: usually a fresh name, now and then the empty
+// string or an odd one (ids are arbitrary strings).
+func c16Sub(t *rapid.T, prefix string, i int) string {
+	switch rapid.IntRange(0, 9).Draw(t, "oddsub") {
+	case 0:
+		return ""
+	case 1:
+		return "\u0001 odd\"sub\\"
+	}
+	return fmt.Sprintf("%s%d", prefix, i)
 }
